@@ -29,7 +29,7 @@ TABLE = [
     ("c08", ["C08"], "Tag.tagged_data, MultiTag._calc_data_slices_mtag / tagged_data, feature_data dispatch and stop-rule plumbing: "
                      "brute-force scan of sample coordinates"),
     ("c12", ["C12"], "every refusing call, including the creating functions after their refusal point (roll-backs)"),
-    ("c16", ["C16"], "create_data_frame schema derivation, append_rows / append_column, cell-level fidelity of all writers / readers"),
+    ("c16", ["C16", "C12"], "create_data_frame schema derivation, append_rows / append_column, cell-level fidelity of all writers / readers"),
     ("c20", ["C20"], "the HDF5-level deep copy (H5Group.copy: H5Ocopy + id regeneration) behind create_block / create_data_array / "
                      "create_tag / ... (copy_from=), copy_section and create_property(copy_from=): content, internal links, id policy, "
                      "independence"),
